@@ -25,6 +25,7 @@ use_repo()
 import numpy as np  # noqa: E402
 
 from glue.core import Data, ComponentID, Component  # noqa: E402
+from glue.core.component import DerivedComponent  # noqa: E402
 from glue.core.component_link import ComponentLink, BinaryComponentLink  # noqa: E402
 from glue.core.coordinates import AffineCoordinates  # noqa: E402
 from glue.core.exceptions import IncompatibleAttribute  # noqa: E402
@@ -208,36 +209,53 @@ class Built:
             return self.cids[t[1]]
         return OPS[t[1]](self.tree(t[2]), self.tree(t[3]))
 
-    def add_binary(self, key, t, direct=False):
+    def _new_cid(self, key, prefix):
+        """The identifier of `key`: a derived component that is added *before* a component reading
+        it was (forward reference) must get the very ComponentID the reader already holds."""
+        cid = self.cids.get(key)
+        if cid is None:
+            cid = ComponentID("%s%d" % (prefix, key))
+            self.cids[key] = cid
+        return cid
+
+    def _add_link(self, link, cid, raw):
+        self.keep.append(link)
+        if raw:
+            # what `data[label] = DerivedComponent(...)` / session loading / the component manager
+            # do: Data.add_component with a ready DerivedComponent does not look at the inputs
+            link.set_to_id(cid)
+            dc = DerivedComponent(self.data, link)
+            self.keep.append(dc)
+            self.data.add_component(dc, cid)
+        elif isinstance(link, BinaryComponentLink) or link.get_to_id() is None:
+            self.data.add_component_link(link, cid)
+        else:
+            self.data.add_component_link(link)
+
+    def add_binary(self, key, t, direct=False, raw=False):
         if direct:  # BinaryComponentLink(left, right, op) with literal operands (may be two numbers)
             link = BinaryComponentLink(self.tree(t[2]), self.tree(t[3]), OPS[t[1]])
         else:
             link = self.tree(t)
-        cid = ComponentID("d%d" % key)
-        self.cids[key] = cid
-        self.keep.append(link)
-        self.data.add_component_link(link, cid)
+        cid = self._new_cid(key, "d")
+        self._add_link(link, cid, raw)
         self.links[key] = ["B", t]
 
-    def add_using(self, key, froms, fcode, ravel):
+    def add_using(self, key, froms, fcode, ravel, raw=False):
         f = USER_FUNCS[fcode]
         if ravel:
             g = f
             f = _raveled(g)
-        cid = ComponentID("u%d" % key)
-        self.cids[key] = cid
+        cid = self._new_cid(key, "u")
         link = ComponentLink([self.cids[k] for k in froms], cid, using=f)
-        self.keep.append(link)
-        self.data.add_component_link(link)
+        self._add_link(link, cid, raw)
         self.links[key] = ["U", list(froms), fcode, ravel]
 
-    def add_parsed(self, key, text, refs):
-        cid = ComponentID("p%d" % key)
-        self.cids[key] = cid
+    def add_parsed(self, key, text, refs, raw=False):
+        cid = self._new_cid(key, "p")
         pc = ParsedCommand(text, dict((lab, self.cids[k]) for lab, k in refs))
         link = ParsedComponentLink(cid, pc)
-        self.keep.append(link)
-        self.data.add_component_link(link)
+        self._add_link(link, cid, raw)
         self.links[key] = ["X", text, refs]
 
     def key_of(self, cid):
@@ -1078,10 +1096,151 @@ class GramFam(Family):
 
 # ---- histories ---------------------------------------------------------------------------
 
+def hist_link_op(kind, key, reads, raw=False, alt=0):
+    """A deterministic derived component of the given link kind (B binary / X parsed / U user
+    function) reading one or two identifiers, as a history op (`r`-prefixed = added through
+    Data.add_component(DerivedComponent(...)), which does not look at the inputs)."""
+    pre = "r" if raw else ""
+    if kind == "B":
+        if len(reads) == 1:
+            t = ["b", ["add", "mul", "sub"][alt % 3], ["k", reads[0]], ["c", ["i", [1, 2, 3][alt % 3]]]]
+        else:
+            t = ["b", ["sub", "add", "mul"][alt % 3], ["k", reads[0]], ["k", reads[1]]]
+        return [pre + "add_d", key, t]
+    if kind == "X":
+        if len(reads) == 1:
+            tr = ["b", "sub", ["b", "mul", ["r", "x", reads[0]], ["n", "2"]], ["n", "1"]]
+            return [pre + "add_x", key, "{x} * 2 - 1", [["x", reads[0]]], tr]
+        tr = ["b", "sub", ["r", "x", reads[0]], ["r", "y z", reads[1]]]
+        return [pre + "add_x", key, "{x} - { y z }", [["x", reads[0]], ["y z", reads[1]]], tr]
+    if len(reads) == 1:
+        return [pre + "add_u", key, [reads[0]], 1, bool(alt % 2)]
+    return [pre + "add_u", key, [reads[0], reads[1]], 2, bool(alt % 2)]
+
+
+def hist_op_reads(op):
+    if op[0].endswith("add_d"):
+        return tree_keys(op[2])
+    if op[0].endswith("add_x"):
+        return [k for _, k in op[3]]
+    if op[0].endswith("add_u"):
+        return list(op[2])
+    return []
+
+
+def order_cases(tier):
+    """Exhaustive core for component orders that do NOT respect the dependencies: small dependency
+    patterns (chains of depth 2 and 3, diamond, pixel input, cycle) x every order of their table x
+    the two ways glue offers to reach that order (`reorder_components` after adding in dependency
+    order / adding derived components before their inputs) x mixed link kinds x every removal,
+    and `update_id` followed by a removal."""
+    sh = [2]
+    A, S, T = STORED0 - 1, STORED0, STORED0 + 1      # anchor, stored, second stored
+    P = PIX0
+    D = DERIVED0
+
+    def stored(k, salt):
+        return ["add_s", k, det_spec(sh, [False], "i", salt)]
+
+    def build(nodes, perm, mode, front):
+        """nodes: name -> ("s", salt) | (kind, reads...) ; perm: names in table order (after the
+        fixed `front`).  mode 'reorder': add in the given (dependency respecting) node order, then
+        reorder_components(front + perm) ; mode 'raw': add in table order, derived components whose
+        inputs are not all there yet through the unchecked route."""
+        key = dict((nm, nodes[nm][2]) for nm in nodes)
+        ops = [stored(A, 7)]
+
+        def add(nm, present):
+            kind, reads, k = nodes[nm][0], nodes[nm][1], nodes[nm][2]
+            if kind == "s":
+                return stored(k, reads)
+            rk = [key.get(r, r) for r in reads]
+            raw = not all(r in present for r in rk)
+            return hist_link_op(kind, k, rk, raw=raw, alt=nodes[nm][3])
+        if mode == "reorder":
+            present = set([P, A])
+            for nm in nodes:            # dict order = dependency order
+                ops.append(add(nm, present | set(key.values())))
+                present.add(key[nm])
+            ops.append(["reorder", front + [key[nm] for nm in perm], True])
+        else:
+            present = set([P, A])
+            for nm in perm:
+                ops.append(add(nm, present))
+                present.add(key[nm])
+        return ops, key
+
+    def variants(nodes, perms, victims, front, modes, updates=()):
+        for perm in perms:
+            for mode in modes:
+                if mode == "raw" and front != [P, A]:
+                    continue
+                for v in victims:
+                    ops, key = build(nodes, perm, mode, front)
+                    yield {"shape": sh, "ops": ops + [["remove", key.get(v, v)]]}
+                for u in updates:
+                    ops, key = build(nodes, perm, mode, front)
+                    yield {"shape": sh, "ops": ops + [["update", key[u], 90], ["remove", 90]]}
+
+    kinds = "BXU"
+    # chain of depth 2 + an independent derived component: a -> c -> d ; t -> e ; all 9 kind pairs
+    for kc in kinds:
+        for kd in kinds:
+            nodes = {"a": ("s", 1, S), "t": ("s", 2, T), "c": (kc, ["a"], D, 0), "d": (kd, ["c"], D + 1, 1),
+                     "e": ("B", ["t"], D + 2, 2)}
+            perms = [list(p) + ["t", "e"] for p in itertools.permutations(["a", "c", "d"])]
+            perms += [["t", "e"] + list(p) for p in itertools.permutations(["a", "c", "d"])][3:4]
+            for c in variants(nodes, perms, ["a", "c", "t", P], [P, A], ["reorder", "raw"], updates=["a"]):
+                yield c
+    # chain of depth 3 with a side input: a -> c -> d -> e, e also reads a
+    for rot in range(4):
+        ks = ["BBB", "BXU", "XUB", "UBX"][rot]
+        nodes = {"a": ("s", 3, S), "c": (ks[0], ["a"], D, rot), "d": (ks[1], ["c"], D + 1, rot + 1),
+                 "e": (ks[2], ["d", "a"], D + 2, rot)}
+        perms = [list(p) for p in itertools.permutations(["a", "c", "d", "e"])]
+        if tier == "quick" and rot > 0:
+            perms = perms[rot::3]
+        for c in variants(nodes, perms, ["a", "c", "d"], [P, A], ["reorder", "raw"], updates=["a", "c"]):
+            yield c
+    # diamond + independent pair: a -> b, a -> c, (b, c) -> d ; s -> e
+    for rot in range(2):
+        ks = ["BBBB", "XBUX"][rot]
+        nodes = {"a": ("s", 4, S), "s": ("s", 5, T), "b": (ks[0], ["a"], D, 0), "c": (ks[1], ["a"], D + 1, 1),
+                 "d": (ks[2], ["b", "c"], D + 2, rot), "e": (ks[3], ["s"], D + 3, 2)}
+        if tier == "quick":
+            perms = [["s"] + list(p) for p in itertools.permutations(["a", "b", "c", "d", "e"])]
+            perms = perms[rot::2]
+        else:
+            perms = [list(p) for p in itertools.permutations(["a", "b", "c", "d", "e", "s"])]
+        for c in variants(nodes, perms, ["a", "b", "s"], [P, A], ["reorder", "raw"]):
+            yield c
+    # the pixel component as input and as a movable table entry: c = a + pix, d = c * 2
+    nodes = {"a": ("s", 6, S), "c": ("B", ["a", P], D, 1), "d": ("X", ["c"], D + 1, 0)}
+    for perm in itertools.permutations([P, A, "a", "c", "d"]):
+        key = {"a": S, "c": D, "d": D + 1}
+        order = [key.get(x, x) for x in perm]
+        for v in [P, S, D]:
+            ops, _ = build(nodes, ["a", "c", "d"], "reorder", [])
+            ops[-1] = ["reorder", order, True]
+            yield {"shape": sh, "ops": ops + [["remove", v]]}
+    # cyclic definitions (reachable because the unchecked route accepts forward references):
+    # x = y + 1 (added first), y = x - a ; z = a * 2
+    for perm in itertools.permutations(["a", "x", "y", "z"]):
+        key = {"a": S, "x": D, "y": D + 1, "z": D + 2}
+        base = [stored(A, 7), stored(S, 8), hist_link_op("B", D, [D + 1], raw=True),
+                hist_link_op("U", D + 1, [D, S]), hist_link_op("X", D + 2, [S]),
+                ["reorder", [P, A] + [key[n] for n in perm], True]]
+        for v in [S, D, D + 1, A]:
+            yield {"shape": sh, "ops": base + [["remove", v]]}
+
+
 class HistFam(Family):
-    """add / remove / update_id histories on one dataset (integer data, + - * only).  Observables:
-    `Data.components` (as keys) after every operation and the value of every remaining component at
-    the end.  The Spec removes exactly the dependency closure and renames identifiers everywhere."""
+    """add / remove / update_id / reorder_components histories on one dataset (integer data, + - *
+    only); derived components are also added before their inputs.  Observables: `Data.components`
+    (as keys) after every operation; after every remove / update_id / reorder and at the end also
+    the value of every remaining component (or that evaluating it raises).  The Spec removes
+    exactly the dependency closure, renames identifiers everywhere, and reorders without changing
+    anything else."""
     name = "hist"
     exhaustive = False
     batch = 100
@@ -1117,9 +1276,12 @@ class HistFam(Family):
                 yield {"shape": sh, "ops": st + adds + [["remove", victim]]}
             for old in [STORED0, STORED0 + 1, keymap["a"], keymap["c"]]:
                 yield {"shape": sh, "ops": st + adds + [["update", old, 90], ["remove", keymap["d"]]]}
+        # component orders that do not respect the dependencies (reorder_components, forward adds)
+        for c in order_cases(tier):
+            yield c
         # seeded random histories
         n = 3000 if tier == "quick" else 40000
-        maxlen = 6 if tier == "quick" else 10
+        maxlen = 7 if tier == "quick" else 10
         for _ in range(n):
             sh = rng.choice([[3], [2, 2], [2]])
             # key 19 is an anchor that is never removed: a dataset emptied of all components and
@@ -1133,7 +1295,7 @@ class HistFam(Family):
             for _ in range(L):
                 r = rng.random()
                 live = live_prim + live_der
-                if r < 0.15 or not live:
+                if r < 0.12 or not live:
                     if rng.random() < 0.25 and [k for k in live_prim if k >= STORED0]:
                         k = rng.choice([k for k in live_prim if k >= STORED0])   # overwrite values
                     else:
@@ -1141,7 +1303,7 @@ class HistFam(Family):
                         fresh_s += 1
                         live_prim.append(k)
                     ops.append(["add_s", k, stored_spec(rng, sh, "i", lo=-3, hi=3)])
-                elif r < 0.25:
+                elif r < 0.19:
                     # a parsed command over integer data (integer literals, + - * and unary minus)
                     k = rng.randint(1, 2)
                     labels = rng.sample(TAG_LABELS, k)
@@ -1150,12 +1312,12 @@ class HistFam(Family):
                     ops.append(["add_x", fresh_d, pprint(tr, rng), [[lab, key] for lab, key in zip(labels, keys)], tr])
                     live_der.append(fresh_d)
                     fresh_d += 1
-                elif r < 0.33:
+                elif r < 0.25:
                     f = rng.choice([1, 2, 3])
                     ops.append(["add_u", fresh_d, [rng.choice(live) for _ in range(USER_ARITY[f])], f, rng.random() < 0.3])
                     live_der.append(fresh_d)
                     fresh_d += 1
-                elif r < 0.6:
+                elif r < 0.42:
                     t = rand_tree(rng, rng.randint(1, 2), live, ["add", "sub", "mul"], [], consts=INT_CONSTS)
                     if rng.random() < 0.04:   # reads an id that is not (or no longer) in the dataset
                         t = ["b", "add", t, ["k", 89]]
@@ -1165,7 +1327,43 @@ class HistFam(Family):
                     if 89 not in tree_keys(t):
                         live_der.append(fresh_d)
                     fresh_d += 1
-                elif r < 0.8:
+                elif r < 0.54:
+                    # a derived component E added BEFORE the derived component D it reads (the
+                    # unchecked route Data.add_component(DerivedComponent) accepts that); D follows
+                    # (sometimes never, sometimes reading E in turn: a cyclic definition)
+                    kd, ke = fresh_d, fresh_d + 1
+                    fresh_d += 2
+                    other = [rng.choice(live)] if rng.random() < 0.4 else []
+                    reads_e = [kd] + other if rng.random() < 0.5 else other + [kd]
+                    ops.append(hist_link_op(rng.choice("BXU"), ke, reads_e, raw=True, alt=rng.randrange(6)))
+                    q = rng.random()
+                    if q < 0.9:
+                        reads_d = [rng.choice(live)]
+                        if q < 0.12:
+                            reads_d.append(ke)
+                        elif q < 0.4:
+                            reads_d.append(rng.choice(live))
+                        ops.append(hist_link_op(rng.choice("BXU"), kd, reads_d, raw=rng.random() < 0.3, alt=rng.randrange(6)))
+                        live_der.append(kd)
+                    live_der.append(ke)
+                elif r < 0.67:
+                    # reorder_components: listed identifiers first, the others keep their order;
+                    # sometimes an exact list (wrong as soon as an earlier removal took dependents
+                    # along: ValueError branch), a list with a repetition or an unknown identifier
+                    pool = live + [STORED0 - 1]
+                    q = rng.random()
+                    if q < 0.7:
+                        pref = rng.sample(pool, rng.randint(1, len(pool)))
+                        ops.append(["reorder", pref, False])
+                    elif q < 0.9:
+                        pref = list(pool)
+                        rng.shuffle(pref)
+                        ops.append(["reorder", pref, True])
+                    else:
+                        pref = rng.sample(pool, rng.randint(1, len(pool)))
+                        pref.insert(rng.randrange(len(pref) + 1), rng.choice(pref + [fresh_d + 7]))
+                        ops.append(["reorder", pref, rng.random() < 0.5])
+                elif r < 0.85:
                     k = rng.choice(live + [fresh_d + 7])
                     ops.append(["remove", k])
                     # (the generator does not track the closure; later ops may name removed ids,
@@ -1204,54 +1402,74 @@ class HistFam(Family):
                 extra[k] = ComponentID("n%d" % k)
             return extra[k]
         sx_ops = []
+
+        def values():
+            out = []
+            for c in b.data.components:
+                k = b.key_of(c)
+                try:
+                    out.append([k, out_of(b.data[c], T)])
+                except IncompatibleAttribute:
+                    out.append([k, "incompatible"])
+                except RecursionError:
+                    out.append([k, "recursion"])
+            return out
         for op in case["ops"]:
             err = None
-            if op[0] == "add_s":
+            valued = False
+            raw = op[0].startswith("radd_")
+            kind = op[0][1:] if raw else op[0]
+            if kind == "add_s":
                 b.cids.setdefault(op[1], cid_of(op[1]))
                 b.add_stored(op[1], op[2])
                 sx_ops.append(["add", op[1], ["P"] + canon_arr(b.data[b.cids[op[1]]], T)])
-            elif op[0] == "add_d":
+            elif kind == "add_d":
                 for k in tree_keys(op[2]):
                     b.cids.setdefault(k, cid_of(k))
                 try:
-                    b.add_binary(op[1], op[2])
+                    b.add_binary(op[1], op[2], raw=raw)
                 except ValueError:
                     err = "value-error"
-                sx_ops.append(["add", op[1], ["B", sx_tree(op[2], T)]])
-            elif op[0] == "add_x":     # parsed command: [op, key, text, refs, ptree]
+                sx_ops.append(["radd" if raw else "add", op[1], ["B", sx_tree(op[2], T)]])
+            elif kind == "add_x":     # parsed command: [op, key, text, refs, ptree]
                 for _, k in op[3]:
                     b.cids.setdefault(k, cid_of(k))
                 try:
-                    b.add_parsed(op[1], op[2], op[3])
+                    b.add_parsed(op[1], op[2], op[3], raw=raw)
                 except ValueError:
                     err = "value-error"
-                sx_ops.append(["add", op[1], sx_link(["X", op[2], op[3]], T)])
-            elif op[0] == "add_u":     # user function: [op, key, froms, fcode, ravel]
+                sx_ops.append(["radd" if raw else "add", op[1], sx_link(["X", op[2], op[3]], T)])
+            elif kind == "add_u":     # user function: [op, key, froms, fcode, ravel]
                 for k in op[2]:
                     b.cids.setdefault(k, cid_of(k))
                 try:
-                    b.add_using(op[1], op[2], op[3], op[4])
+                    b.add_using(op[1], op[2], op[3], op[4], raw=raw)
                 except ValueError:
                     err = "value-error"
-                sx_ops.append(["add", op[1], ["U", list(op[2]), op[3], bool(op[4])]])
-            elif op[0] == "remove":
+                sx_ops.append(["radd" if raw else "add", op[1], ["U", list(op[2]), op[3], bool(op[4])]])
+            elif kind == "remove":
                 b.data.remove_component(cid_of(op[1]))
                 sx_ops.append(["remove", op[1]])
-            elif op[0] == "update":
+                valued = True
+            elif kind == "update":
                 new = cid_of(op[2])
                 b.cids.setdefault(op[2], new)
                 b.data.update_id(cid_of(op[1]), new)
                 sx_ops.append(["update", op[1], op[2]])
-            steps.append(err if err else [b.key_of(c) for c in b.data.components])
-        final = []
-        for c in b.data.components:
-            k = b.key_of(c)
-            try:
-                final.append([k, out_of(b.data[c], T)])
-            except IncompatibleAttribute:
-                final.append([k, "incompatible"])
-            except RecursionError:
-                final.append([k, "recursion"])
+                valued = True
+            elif kind == "reorder":   # [op, listed keys, exact]
+                ids = [cid_of(k) for k in op[1]]
+                if not op[2]:
+                    ids = ids + [c for c in b.data.components if not any(c is x for x in ids)]
+                try:
+                    b.data.reorder_components(ids)
+                except ValueError:
+                    err = "value-error"
+                sx_ops.append(["reorder", list(op[1]), bool(op[2])])
+                valued = True
+            keys = [b.key_of(c) for c in b.data.components]
+            steps.append(err if err else ([keys, values()] if valued else keys))
+        final = values()
         # initial table: the pixel components exist as soon as the first component is added; the
         # driver starts from the empty table and the first add creates them (see `line`)
         self._aux = (sx_ops, b, T)
@@ -1272,7 +1490,7 @@ class HistFam(Family):
         return sx(["hist", [list(case["shape"]), init, sx_ops, "arith", []], pyout])
 
     def nontrivial(self, case, po):
-        return any(o[0] in ("remove", "update") for o in case["ops"])
+        return any(o[0] in ("remove", "update", "reorder") for o in case["ops"])
 
     def signature(self, case, po, res):
         kinds = sorted(set(o[0] for o in case["ops"]))
@@ -1293,6 +1511,7 @@ PROP = Property(
     theorems=["C14.binary_compute_elementwise", "C14.expr_eval", "C14.link_compute_elementwise",
               "C14.getitem_elementwise", "C14.getitem_view_commutes",
               "C14.remove_closure", "C14.depClosure_iff_reach", "C14.remove_keeps_inputs", "C14.remove_absent", "C14.remove_spec",
+              "C14.reorder_is_permutation", "C14.remove_order_invariant", "C14.reorder_preserves_values",
               "C14.update_id_preserves_order", "C14.update_id_preserves_values",
               "C14.update_id_breaks_dependents", "C14.parse_print"],
     families=[GramFam(), Bcl(), ExprFam(), ArithFam(), ULink(), ParsedFam(), HistFam()],
@@ -1302,7 +1521,7 @@ PROP = Property(
         "the reference evaluation in harness/props/c14.py only tabulates the operators' graphs (numpy applied to the full arrays); every verdict is computed by the Lean Spec",
     ],
     assumptions=["pixel / world component values are inputs (read from the real dataset); their correctness is C04/C15"],
-    rule="exhaustive: all zero-stride patterns x operators x operand kinds (bcl), all leaf pairs x operators at depth 1 and all views of a fixed tree (expr/arith), all insertion orders of a 5-node dependency pattern x every removal (hist); seeded random trees to depth 3/5, user functions, command strings, histories beyond; non-trivial = result with more than one element / history with a removal or update_id",
+    rule="exhaustive: all zero-stride patterns x operators x operand kinds (bcl), all leaf pairs x operators at depth 1 and all views of a fixed tree (expr/arith), all insertion orders of a 5-node dependency pattern x every removal, every component order (reorder_components / derived components added before their inputs) of chains of depth 2-3, a diamond, a pixel input and a cyclic pair x link kinds x every removal (hist); seeded random trees to depth 3/5, user functions, command strings, histories beyond; non-trivial = result with more than one element / history with a removal, update_id or reorder",
 )
 
 for _f, _share in zip(PROP.families, (0.4, 1.0, 2.0, 1.0, 0.7, 1.5, 1.2)):
